@@ -85,5 +85,15 @@ func (s *Aggregate) VerifySyncInfo(syncInfo hotstuff.SyncInfo) (qc *hotstuff.Quo
 		}
 		return &highQC, view, timeout, nil
 	}
-	return nil, view, timeout, nil // aggregate quorum certificate not present, so no high QC available
+	// No aggregate quorum certificate. A plain quorum certificate does not end a view under this
+	// rule, but it may still be the highest one the replica has seen: report it, so that the high QC
+	// is kept up to date. Timeout messages carry the high QC, and the aggregate quorum certificate
+	// built from them must not hide a block that a quorum has already voted for.
+	if quorumCert, haveQC := syncInfo.QC(); haveQC {
+		if err := s.auth.VerifyQuorumCert(quorumCert); err != nil {
+			return nil, 0, timeout, fmt.Errorf("failed to verify quorum certificate: %w", err)
+		}
+		return &quorumCert, view, timeout, nil
+	}
+	return nil, view, timeout, nil // no quorum certificate of either kind, so no high QC available
 }
